@@ -106,13 +106,27 @@ def run(chk):
     fixed = ["round(1.25, 1)", "1J/N * 1m", "3C/A / 8ms", "c/13.5min**3 VYm*", "(1m)^0", "(12N * 2m) ** 0 + 1", "1K / -273.15°C", "10m / -459.67°F", "1 ) ", "1 / 0", "0 ^ -1",
              "\ufeff1 + 2", "2e+", "1E-x", ".5e+", " (", " 1 to", " f(", "", " ", "(", ")", "{", "}", "{a b", "1 +", "to", "1 to", "1 to to", "round(", "round()", "round(,)", "f(", "1e", ".", "-", "1 m^", "1 m^x", "1 2", "1 m 2", "sin(1 m)",
              "sin(1e300)", "cos()", "1e999 * 1e999", "1e-999 / 1e999", "5 % %", "%", "1 %%", "(((((((((((1)))))))))))", "1 " * 40, "(" * 70 + "1" + ")" * 70]
-    strings = [s for s in fixed + soups + uni if not TOO_BIG.search(s)]
-    chk.cov["filtered_beyond_stated_bounds"] = len(fixed + soups + uni) - len(strings)
+    # structured edge cases: the shapes a soup almost never hits by chance
+    units = ["m", "km", "s", "kg", "N", "J", "W", "m/s", "°C", "°F", "K", "Ym", "ym", "fm", "GB", "mi", "h"]
+    edge = []
+    for _ in range(max(400, p["soups"] // 10)):
+        u = rnd.choice(units)
+        a, b = rnd.randint(0, 20), rnd.randint(1, 9)
+        edge += [rnd.choice([
+            "%d%s / 0%s" % (b, u, u), "%d %s / (%d %s - %d %s)" % (b, u, a, u, a, u), "%d%s * 0%s" % (b, u, u), "0%s / 0%s" % (u, u), "(%d%s)^0" % (b, u),
+            "1%s^%d * 1s" % (u, rnd.choice([2, 3, -3])), "%d / %d%s^%d" % (b, b, u, rnd.choice([2, 3])), "(1%s)^%d * 1 s" % (u, rnd.choice([2, -2, 5])),
+            "%d%s + %d%s" % (a, u, b, rnd.choice(units)), "%d%s to %s" % (a, u, rnd.choice(units)), "%d %s%s" % (a, u, rnd.choice(["°q", "°°", "é", "^", "^x", "/", "*"])),
+            "%d°C to k°°" % a, "%d m°q" % a, "%d°C + 1 °X" % a, "%de20" % b, "%de-20" % b, "0.%s%d" % ("0" * 19, b), "%d.%s" % (a, "1234567890" * 2),
+            "round(%d.5 %s, %d)" % (a, u, rnd.randint(-3, 3)), "floor(%d %s, 1)" % (a, u), "%d%% %s" % (a, u), "%d %s %%" % (a, u), "-%d%s ^ -%d" % (b, u, rnd.randint(1, 3)),
+            "%d to %s to %s" % (a, u, rnd.choice(units)), "{%s" % u, "%d + {%s %s" % (a, u, u), "%d%s/%d%s" % (a, u, 0, u)])]
+    strings = [s for s in fixed + edge + soups + uni if not TOO_BIG.search(s)]
+    chk.cov["filtered_beyond_stated_bounds"] = len(fixed + edge + soups + uni) - len(strings)
+    chk.cov["structured_edge_cases"] = len(edge)
     for profile in ("dbg", "release"):
         run_strings(chk, strings, "c11-strings", "soups and Unicode strings", profile)
     # a sample through the real binary
     w = vlib.workdir("c11-bin")
-    sample = fixed + rnd.sample(soups, min(len(soups), p["binary"]))
+    sample = fixed + rnd.sample(edge, min(len(edge), p["binary"] // 2)) + rnd.sample(soups, min(len(soups), p["binary"]))
     sample = [s for s in sample if not TOO_BIG.search(s) and "\x00" not in s]
     inp, out = os.path.join(w, "queries.ndjson"), os.path.join(w, "rec.ndjson")
     vlib.write_ndjson(inp, sample)
